@@ -89,6 +89,16 @@ class CodeGenModel:
             deep = self.frame.fields['offset']
             size_after = self.frame.fields['size']
             I.invoke(dec, self.frame, [D])
+            if _contains_call(e):
+                # the code of a nested call also runs the call generator's own frame bookkeeping: what it leaves in Frame::outgoing is
+                # read off the real generator once (HEAD: setOutgoing(0) at the end of every call sequence)
+                eff = nested_call_outgoing(I.idx)
+                if eff[0] == 'const':
+                    so = [m for m in I.idx.record('xcmp::Frame').methods if m.name == 'setOutgoing']
+                    if so:
+                        I.invoke(so[0], self.frame, [const(64, False, eff[1])])
+                    else:
+                        self.frame.fields['outgoing'] = const(64, False, eff[1])
             self.cb.fields['instrs'].items.append(Obj('EXPR', {'expr': e, 'reg': rn, 'frame_offset': fo, 'deepest': deep,
                                                                'size_lbs': list(size_after.lbs or ([size_after.aff] if size_after.aff else []))},
                                                       'EXPR[%s->%s]' % (self.X.show(e), rn)))
@@ -118,6 +128,34 @@ class CodeGenModel:
 
     def data(self):
         return self.cb.fields['data'].items
+
+
+_NESTED = {}
+
+
+def nested_call_outgoing(idx):
+    """What generating a (parameterless) function call leaves in Frame::outgoing: ('const', n) or ('restore',) -- read from the real
+    genFuncCall by interpreting it on a frame whose outgoing count is symbolic."""
+    if id(idx) in _NESTED:
+        return _NESTED[id(idx)]
+    res = ('restore',)
+    try:
+        M2 = CodeGenModel(idx, 'A')
+        M2.symbol('fn_nested', 'FUNC', '')
+        if 'outgoing' in M2.frame.fields:
+            M2.frame.fields['outgoing'] = M2.I.sym('OUT0', 64, False, 0, 1 << 10)
+            M2.X.visit_post(M2.expr_visitor('A'), M2.X.call('fn_nested', []))
+            o = M2.frame.fields['outgoing']
+            if isinstance(o, IV) and o.concrete():
+                res = ('const', o.lo)
+            elif isinstance(o, IV) and o.aff is not None and o.aff[0] == {'OUT0': 1} and o.aff[1] == 0:
+                res = ('restore',)
+            else:
+                raise AnalysisBroken('a nested call leaves Frame::outgoing at %r' % (o,))
+    except (NeedSplit, Thrown) as e:
+        raise AnalysisBroken('cannot read the frame effect of a nested call: %s' % e)
+    _NESTED[id(idx)] = res
+    return res
 
 
 def _contains_call(e):
